@@ -582,6 +582,11 @@ addrxlat_get_page(const addrxlat_cb_t *cb, addrxlat_buffer_t *buf)
 	struct page_io *pio;
 	kdump_status status;
 
+	/* Without an open dump file there is no format handler to ask. */
+	if (!ctx->shared->ops)
+		return addrxlat_ctx_err(ctx->xlatctx, ADDRXLAT_ERR_NODATA,
+					"No dump file to read pages from");
+
 	pio = malloc(sizeof *pio);
 	if (!pio)
 		return addrxlat_ctx_err(ctx->xlatctx, ADDRXLAT_ERR_NOMEM,
